@@ -185,11 +185,11 @@ def _parse(line: str):
 def parse_case(line: str) -> dict:
     s = _parse(line)
     assert s[0] == "m"
-    d = {"fut": True, "ord": [], "ord2": [], "enums": [], "tm": [], "classes": []}
+    d = {"fut": True, "ord": [], "ord2": [], "enums": [], "ek": [], "tm": [], "classes": []}
     for it in s[1:]:
         if it[0] == "fut":
             d["fut"] = it[1] == "T"
-        elif it[0] in ("ord", "ord2", "enums", "tm"):
+        elif it[0] in ("ord", "ord2", "enums", "tm", "ek"):
             d[it[0]] = list(it[1:])
         elif it[0] == "split":
             d["split_real"] = it[1] == "R"
@@ -204,6 +204,7 @@ def parse_case(line: str) -> dict:
     for i, c in enumerate(d["classes"]):
         c["part"] = parts[i] if i < len(parts) else 0
     d.setdefault("split_real", False)
+    d["ek"] = (d["ek"] + ["plain"] * len(d["enums"]))[:len(d["enums"])]
     if not d["ord"]:
         d["ord"] = list(names)
     if not d["ord2"]:
@@ -217,6 +218,10 @@ def show_case(d: dict) -> str:
     for c in d["classes"]:
         fs = "".join(" (%s %s%s)" % (n, k, "" if a is None else " " + a) for n, k, a in c["fields"])
         parts.append("(c %s %s%s)" % (c["name"], c["base"] or "-", fs))
+    if any(k != "plain" for k in d.get("ek", [])):
+        # flavour of every enum class of `enums` (source only; for the model and the spec an enum is an enum):
+        # plain `Enum` | int `IntEnum` | str `(str, Enum)` | strenum `StrEnum`
+        parts.append("(ek %s)" % " ".join(d["ek"]))
     if d.get("tm"):
         # keys of ORMatic's `type_mappings` argument (classes persisted through a TypeDecorator), used by a field or not
         parts.append("(tm %s)" % " ".join(d["tm"]))
@@ -261,17 +266,28 @@ def _annotation(kind: str, arg, fut: bool, declared: set) -> str:
     raise ValueError(kind)
 
 
+ENUM_FLAVOURS = {"plain": ("Enum", "1", "2"), "int": ("IntEnum", "1", "2"),
+                 "str": ("str, Enum", '"first"', '"second"'), "strenum": ("StrEnum", '"first"', '"second"')}
+
+
+def _enum_source(d: dict) -> list:
+    out = []
+    for e, k in zip(d["enums"], d.get("ek") or ["plain"] * len(d["enums"])):
+        bases, v1, v2 = ENUM_FLAVOURS[k]
+        out += ["class %s(%s):" % (e, bases), "    FIRST = %s" % v1, "    SECOND = %s" % v2, "", ""]
+    return out
+
+
 def render_module(d: dict) -> str:
     out = []
     if d["fut"]:
         out.append("from __future__ import annotations")
-    out += ["from dataclasses import dataclass", "from datetime import datetime", "from enum import Enum",
-            "from typing_extensions import List, Optional"]
+    out += ["from dataclasses import dataclass", "from datetime import datetime",
+            "from enum import Enum, IntEnum, StrEnum", "from typing_extensions import List, Optional"]
     if d.get("tm"):
         out.append("from %s import %s" % (TM_CLASSES, ", ".join(d["tm"])))
     out += ["", ""]
-    for e in d["enums"]:
-        out += ["class %s(Enum):" % e, "    FIRST = 1", "    SECOND = 2", "", ""]
+    out += _enum_source(d)
     for u in external_targets(d):
         # a class of the user's module that is not part of the class diagram: fields of this type are not mapped
         out += ["class %s:" % u, "    pass", "", ""]
@@ -332,9 +348,7 @@ def render_sources(d: dict, mod: str):
     part_of = {c["name"]: c["part"] for c in d["classes"]}
     files = {}
     if d["enums"]:
-        out = ["from enum import Enum", "", ""]
-        for e in d["enums"]:
-            out += ["class %s(Enum):" % e, "    FIRST = 1", "    SECOND = 2", "", ""]
+        out = ["from enum import Enum, IntEnum, StrEnum", "", ""] + _enum_source(d)
         files[mod + "_en.py"] = "\n".join(out)
     for part in sorted(set(part_of.values())):
         mine = [c for c in d["classes"] if c["part"] == part]
@@ -396,6 +410,11 @@ def _all_fields(d: dict, name: str) -> dict:
     return res
 
 
+# the class of the column type a field kind demands: b builtin scalar, e enum (every enum.Enum subclass), d datetime,
+# j JSON, c custom TypeDecorator, k key
+TYPE_CLASS = {"s": "b", "o": "b", "e": "e", "oe": "e", "d": "d", "od": "d", "j": "j", "cu": "c", "ocu": "c"}
+
+
 def ground_truth(d: dict) -> str:
     """What the property demands, read directly off the generating term (independent of ORMatic and of Lean)."""
     by = {c["name"]: c for c in d["classes"]}
@@ -410,20 +429,20 @@ def ground_truth(d: dict) -> str:
             cur = by.get(cur["base"]) if cur["base"] else None
         dao = c["name"] + "DAO"
         base = c["base"] + "DAO" if c["base"] in by else "Base"
-        cols = ["database_id"]
+        cols = ["database_id:k"]
         if c["base"] is None and any(x["base"] == c["name"] for x in d["classes"]):
-            cols.append("polymorphic_type")
+            cols.append("polymorphic_type:b")
         if base != "Base":
             F.append("%s.database_id>%s" % (dao, base))
         for n, k, a in c["fields"]:
             if n.startswith("_") or n in anc_names:
                 continue
             if k in ("s", "e", "d", "j", "cu"):
-                cols.append(n)
+                cols.append(n + ":" + TYPE_CLASS[k])
             elif k in ("o", "oe", "od", "ocu"):
-                cols.append(n + "?")
+                cols.append(n + "?:" + TYPE_CLASS[k])
             elif k in ("r", "or") and a in by:
-                cols.append(n + "_id" + ("?" if k == "or" else ""))
+                cols.append(n + "_id" + ("?" if k == "or" else "") + ":k")
                 R.append("%s.%s>%sDAO:one" % (dao, n, a))
                 F.append("%s.%s_id>%sDAO" % (dao, n, a))
             elif k == "l" and a in by:
@@ -458,7 +477,7 @@ def _exc_kind(e: BaseException) -> str:
     return {"DuplicateColumnError": "dupcol", "MappedAnnotationError": "unresolved"}.get(n, n)
 
 
-def _generate(where: dict, order, out_path: str, tm=()) -> str:
+def _generate(where: dict, order, out_path: str, tm=(), again: int = 0):
     import importlib
     from krrood.class_diagrams.class_diagram import ClassDiagram
     from krrood.ormatic.ormatic import ORMatic
@@ -471,7 +490,39 @@ def _generate(where: dict, order, out_path: str, tm=()) -> str:
     o.make_all_tables()
     with open(out_path, "w") as f:
         o.to_sqlalchemy_file(f)
-    return Path(out_path).read_text()
+    text = Path(out_path).read_text()
+    if again:
+        # a second generation from the SAME ORMatic instance (a build script refreshing the interface file, a defensive
+        # second `make_all_tables()`): the same model must give the same file
+        for i in range(again):
+            o.make_all_tables()
+            with open(out_path + ".again", "w") as f:
+                o.to_sqlalchemy_file(f)
+            second = Path(out_path + ".again").read_text()
+            os.unlink(out_path + ".again")
+            if second != text:
+                return text, "second-generation-differs"
+        return text, "ok"
+    return text
+
+
+def _type_class(col) -> str:
+    """class of the SQL type of a column of the generated layer (read off the configured mapper's table)"""
+    import sqlalchemy as sa
+    t = col.type
+    if col.primary_key or col.foreign_keys:
+        return "k"
+    if isinstance(t, sa.Enum):  # before String: sqlalchemy.Enum is a String subclass
+        return "e"
+    if isinstance(t, sa.TypeDecorator):
+        return "j" if isinstance(t.impl_instance, sa.JSON) else "c"
+    if isinstance(t, sa.JSON):
+        return "j"
+    if isinstance(t, (sa.DateTime, sa.Date, sa.Time)):
+        return "d"
+    if isinstance(t, (sa.String, sa.Integer, sa.Numeric, sa.Boolean)):
+        return "b"
+    return "other<%s>" % type(t).__name__
 
 
 def _inspect(g, d: dict) -> dict:
@@ -518,7 +569,7 @@ def _inspect(g, d: dict) -> dict:
                 mark = "?" if col.nullable else "!"
             elif col.name.endswith("_id") and allf.get(col.name[:-3], (None, None))[0] == "or":
                 mark = "?" if col.nullable else "!"
-            cols.append(col.name + mark)
+            cols.append(col.name + mark + ":" + _type_class(col))
             for fk in col.foreign_keys:
                 F.append("%s.%s>%s" % (tbl.name, col.name, fk.column.table.name))
         T.append("%s(%s)<%s:%s" % (dao, cls, base, ",".join(sorted(cols))))
@@ -566,7 +617,8 @@ def _worker_main(jobfile: str) -> None:
         where = job["where"]
         if job["mode"] == "full":
             try:
-                text = _generate(where, d["ord"], os.path.join(job["dir"], mod + "_orm.py"), d.get("tm", ()))
+                text, res["again"] = _generate(where, d["ord"], os.path.join(job["dir"], mod + "_orm.py"),
+                                               d.get("tm", ()), again=2)
             except Exception as e:  # noqa: BLE001
                 res["fail"] = "gen:" + _exc_kind(e)
                 res["detail"] = str(e)[:300]
@@ -641,7 +693,9 @@ def _observe(d: dict, line: str) -> str:
         job["mode"] = "regen"
         Path(tmp, "job2.json").write_text(json.dumps(job))
         r2 = _spawn(os.path.join(tmp, "job2.json"), "4242")
-        if "fail" in r2:
+        if r1.get("again", "ok") != "ok":
+            det = r1["again"]
+        elif "fail" in r2:
             det = "regen-" + r2["fail"]
         elif r2.get("sha") != r1.get("sha"):
             det = "bytes-differ"
@@ -724,6 +778,11 @@ def _random_model(rng, shape: str) -> dict:
     long_names = shape == "long-names" or rng.random() < 0.12
     names = rng.sample(LONG_CLASS_NAMES if long_names else CLASS_NAMES, n)
     enums = rng.sample(ENUM_NAMES, rng.choice([0, 1, 1, 2]))
+    if shape == "enum-flavours" and not enums:
+        enums = rng.sample(ENUM_NAMES, rng.choice([1, 2, 3]))
+    flavour = {e: rng.choice(["plain", "plain", "int", "str", "strenum"]) for e in enums}
+    if shape == "enum-flavours":
+        flavour = {e: rng.choice(["int", "str", "strenum"]) for e in enums}
     # the `type_mappings` argument: 0-3 keys; fields may use some of them, the others stay unused entries
     tm = rng.sample(TM_NAMES, rng.choice([1, 2, 3])) if (shape == "type-mappings" or rng.random() < 0.2) else []
     tm_used = tm[:rng.choice([0, 1, len(tm)])] if tm else []
@@ -773,7 +832,8 @@ def _random_model(rng, shape: str) -> dict:
             used.add(fname)
             kind = rng.choices(
                 ["s", "o", "e", "oe", "d", "od", "j", "r", "or", "l", "cu", "ocu"],
-                weights=[22, 12, 6 if enums else 0, 3 if enums else 0, 5, 3, 8, 12, 12, 14,
+                weights=[22, 12, (18 if shape == "enum-flavours" else 6) if enums else 0,
+                         (12 if shape == "enum-flavours" else 3) if enums else 0, 5, 3, 8, 12, 12, 14,
                          10 if tm_used else 0, 8 if tm_used else 0])[0]
             arg = None
             if kind in ("cu", "ocu"):
@@ -831,6 +891,8 @@ def _random_model(rng, shape: str) -> dict:
                 a["fields"].append((down_names[i % 4] + ("s" if i > 3 else ""), rng.choice(["r", "or", "or", "l"]), c["name"]))
             if mode in ("up", "both"):
                 c["fields"].append((up_names[i % 4] + ("s" if i > 3 else ""), rng.choice(["r", "or", "or", "l"]), a["name"]))
+    if shape == "enum-flavours" and not any(f[1] in ("e", "oe") for c in classes for f in c["fields"]):
+        rng.choice(classes)["fields"].append(("state", rng.choice(["e", "oe"]), rng.choice(enums)))
     if shape == "self-ref":
         c = rng.choice(classes)
         c["fields"].append(("previous", rng.choice(["r", "or"]), c["name"]))
@@ -866,12 +928,12 @@ def _random_model(rng, shape: str) -> dict:
         order2 = list(reversed(order))
     if tm_used and not any(f[1] in ("cu", "ocu") for c in classes for f in c["fields"]):
         rng.choice(classes)["fields"].append(("worth", rng.choice(["cu", "ocu"]), tm_used[0]))
-    return {"fut": rng.random() < 0.5, "ord": order, "ord2": order2, "enums": sorted(enums), "tm": sorted(tm),
-            "classes": decl}
+    return {"fut": rng.random() < 0.5, "ord": order, "ord2": order2, "enums": sorted(enums),
+            "ek": [flavour[e] for e in sorted(enums)], "tm": sorted(tm), "classes": decl}
 
 
 SHAPES = ["plain", "hier-refs", "long-names", "deep", "type-mappings", "mutual", "multi-coll", "self-ref", "plain",
-          "hier-refs", "no-builtin", "type-mappings", "self-coll", "deep"]
+          "hier-refs", "no-builtin", "type-mappings", "self-coll", "deep", "enum-flavours"]
 
 
 def _assign_parts(rng, d: dict) -> None:
@@ -979,6 +1041,8 @@ def _tags(d: dict, shape: str):
         tags.append("long-class-names")
     kinds = {k for c in d["classes"] for _, k, _ in c["fields"]}
     tags += ["kind:" + k for k in sorted(kinds)]
+    used_enums = {a for c in d["classes"] for _, k, a in c["fields"] if k in ("e", "oe")}
+    tags += ["enum:" + k for e, k in sorted(zip(d["enums"], d.get("ek", []))) if e in used_enums]
     if any(c["base"] for c in d["classes"]):
         tags.append("inheritance")
     by0 = {c["name"]: c for c in d["classes"]}
@@ -1037,7 +1101,9 @@ def shrink(case):
         dd["ord"] = [x for x in dd["ord"] if x in keep]
         dd["ord2"] = [x for x in dd["ord2"] if x in keep]
         used = {a for c in dd["classes"] for _, k, a in c["fields"] if k in ("e", "oe")}
+        ek = dict(zip(dd["enums"], dd.get("ek") or []))
         dd["enums"] = [e for e in dd["enums"] if e in used]
+        dd["ek"] = [ek.get(e, "plain") for e in dd["enums"]]
         return Case(show_case(dd), case.tags, "shrink")
 
     if is_split(d):
@@ -1066,4 +1132,9 @@ def shrink(case):
         dd = json.loads(json.dumps(d))
         dd["fut"] = False
         out.append(mk(dd))
+    for i, k in enumerate(d.get("ek", [])):
+        if k != "plain":
+            dd = json.loads(json.dumps(d))
+            dd["ek"][i] = "plain"
+            out.append(mk(dd))
     return out
